@@ -5,11 +5,13 @@ use std::io::{self, BufRead, Write};
 use std::panic;
 
 mod adjustable;
+mod ugraph;
 
 
 fn run_case(fam: &str, args: &[i128]) -> Vec<i128> {
     match fam {
         "adjustable" => adjustable::run(args),
+        f if f.starts_with("ugraph_") => ugraph::run(args, f[7..].parse().unwrap()),
         _ => panic!("unknown family {fam}"),
     }
 }
